@@ -231,10 +231,8 @@ theorem decodeItemBody_encode (ty : Nat) (b : ItemBody) (h : b.WF ty) :
 def Item.WF (it : Item) : Prop :=
   it.typeId < 65536 ∧ it.body.WF it.typeId ∧ (encodeItemBody it.body).length < 65536
 
-def Item.isRaw (it : Item) : Bool := match it.body with | .raw _ => true | _ => false
-
-/-- a recognised item is delimited by its own length field -/
-theorem decodeItem_encode (it : Item) (rest : Bytes) (h : it.WF) (hnr : it.isRaw = false) :
+/-- every item, of recognised type or not, is delimited by its own length field -/
+theorem decodeItem_encode (it : Item) (rest : Bytes) (h : it.WF) :
     decodeItem (encodeItem it ++ rest) = some (it, rest) := by
   obtain ⟨hty, hb, hl⟩ := h
   obtain ⟨ty, body⟩ := it
@@ -242,68 +240,21 @@ theorem decodeItem_encode (it : Item) (rest : Bytes) (h : it.WF) (hnr : it.isRaw
   simp only [encodeItem, List.append_assoc, decodeItem]
   rw [takeLE_append 2 ty _ (by simpa using hty)]; simp only
   rw [takeLE_append 2 _ _ (by simpa using hl)]; simp only
-  have hrec : ¬ ((encodeItemBody body).length ≠ 0 ∧ (!recognised ty) = true) := by
-    intro ⟨hlen, hr⟩
-    cases body with
-    | raw bs => simp [Item.isRaw] at hnr
-    | empty => simp [encodeItemBody] at hlen
-    | usend u => rw [hb.1] at hr; simp [recognised] at hr
-    | connId n => rw [hb.1] at hr; simp [recognised] at hr
-    | connData s r => rw [hb.1] at hr; simp [recognised] at hr
-    | commSvc v c n => rw [hb.1] at hr; simp [recognised] at hr
-    | identity i => rw [hb.1] at hr; simp [recognised] at hr
-    | legacy1 l => rw [hb.1] at hr; simp [recognised] at hr
-  rw [if_neg hrec, takeN_append]
+  rw [takeN_append]
   simp only
   rw [decodeItemBody_encode ty body hb]; rfl
 
-/-- an item of unrecognised type is parseable in last position (its parser takes everything) -/
-theorem decodeItem_encode_raw_last (it : Item) (h : it.WF) (hr : it.isRaw = true) :
-    decodeItem (encodeItem it) = some (it, []) := by
-  obtain ⟨hty, hb, hl⟩ := h
-  obtain ⟨ty, body⟩ := it
-  cases body with
-  | raw bs =>
-    simp only at hty hb hl
-    obtain ⟨hrec, hne⟩ := hb
-    simp only [encodeItem, encodeItemBody, List.append_assoc, decodeItem] at hl ⊢
-    rw [takeLE_append 2 ty _ (by simpa using hty)]; simp only
-    rw [takeLE_append 2 _ _ (by simpa using hl)]; simp only
-    have hlen : bs.length ≠ 0 := by cases bs <;> simp at hne ⊢
-    rw [if_pos ⟨hlen, by simp [hrec]⟩, if_neg (by omega)]
-  | _ => simp [Item.isRaw] at hr
+def ItemsWF (items : List Item) : Prop := ∀ it ∈ items, it.WF
 
-/-- a CPF list is well-formed when every item is, and only the last may be of unrecognised type -/
-def ItemsWF : List Item → Prop
-  | [] => True
-  | [it] => it.WF
-  | it :: rest => it.WF ∧ it.isRaw = false ∧ ItemsWF rest
-
-theorem decodeItems_encode (items : List Item) (h : ItemsWF items) :
-    decodeItems items.length ((items.map encodeItem).flatten) = some (items, []) := by
+theorem decodeItems_encode (items : List Item) (rest : Bytes) (h : ItemsWF items) :
+    decodeItems items.length ((items.map encodeItem).flatten ++ rest) = some (items, rest) := by
   induction items with
   | nil => rfl
-  | cons it rest ih =>
-    cases rest with
-    | nil =>
-      simp only [ItemsWF] at h
-      simp only [List.length_cons, List.length_nil, List.map_cons, List.map_nil, List.flatten_cons,
-        List.flatten_nil, List.append_nil, decodeItems]
-      by_cases hr : it.isRaw = true
-      · rw [decodeItem_encode_raw_last it h hr]
-      · have := decodeItem_encode it [] h (by simpa using hr)
-        simp only [List.append_nil] at this
-        rw [this]
-    | cons it2 rest2 =>
-      simp only [ItemsWF] at h
-      obtain ⟨hw, hnr, hrest⟩ := h
-      have := ih hrest
-      simp only [List.length_cons, List.map_cons, List.flatten_cons] at this ⊢
-      simp only [decodeItems]
-      rw [decodeItem_encode it _ hw hnr]
-      simp only
-      simp only [decodeItems] at this
-      rw [this]
+  | cons it more ih =>
+    simp only [List.length_cons, List.map_cons, List.flatten_cons, List.append_assoc, decodeItems]
+    rw [decodeItem_encode it _ (h it (by simp))]
+    simp only
+    rw [ih (fun x hx => h x (by simp [hx]))]
 
 def CpfWF : Option (List Item) → Prop
   | none => True
@@ -318,7 +269,9 @@ theorem decodeCpf_encode (cpf : Option (List Item)) (h : CpfWF cpf) : decodeCpf 
     have hne : (Bytes.le 2 items.length ++ (items.map encodeItem).flatten).isEmpty = false := by simp [Bytes.le]
     simp only [encodeCpf, decodeCpf, hne, Bool.false_eq_true, ↓reduceIte]
     rw [takeLE_append 2 _ _ (by simpa using hl)]; simp only
-    rw [decodeItems_encode items hw]
+    have := decodeItems_encode items [] hw
+    simp only [List.append_nil] at this
+    rw [this]
 
 /-! ### commands and whole messages -/
 
